@@ -1,6 +1,7 @@
 SPECIFICATION TraceSpec
 CONSTANTS
   MaxParked = 0
+  NoLock = "none"
   LockIds = {"unused"}
 INVARIANTS
   VerdictOK
